@@ -99,6 +99,9 @@ func execC33(t *testing.T, c *sim.Case) *sim.Result {
 			b.mu.Lock()
 			lastIno[b.running] = ino
 			b.mu.Unlock()
+			// scheduling point between open(LOCK) and flock: the previous holder may
+			// release and a third contender may create and lock a new LOCK file here
+			b.sched.Yield(nil, "fs.lock_opened")
 		}}
 		ntasks := int(c.CfgInt("tasks", 2))
 		if ntasks < 1 {
